@@ -49,6 +49,9 @@ def R8(kind: str) -> Spec:
                Task("b", effort=P("e1"), alloc=["r"], prio=P("p1"))], [r], length="2w", effort_unit=H, time_unit=H)
     if kind == "vacation":
         sp.vacations = ["2025-01-07", "2025-01-09 - 2025-01-11"]
+    if kind == "pre-leave":
+        # calendar entries before the project start (and one spanning it); the pinned task sits in the last days of the window
+        r.leaves = ["annual 2025-01-01 - 2025-01-05", "annual 2025-01-05 - 2025-01-06-12:00"]
     return sp
 
 
@@ -83,6 +86,7 @@ def cells(tier: str) -> dict:
     narrow("R3team[narrow]", R3)
     narrow("R8[leave,narrow]", lambda: R8("leave"))
     narrow("R8[vacation,narrow]", lambda: R8("vacation"))
+    narrow("R8[pre-leave,narrow]", lambda: R8("pre-leave"), {"s0": (262, 268)})
     # priority 0 is a legal priority (the lowest)
     def prio0():
         return R1(2), {"e0": (1, 2), "e1": (1, 2), "p0": (0, 2), "p1": (0, 2)}, None
